@@ -304,6 +304,7 @@ def verify(contract: Contract, src: SourceIndex = None, contracts=None, timeout_
     if extra_ctx:
         extra_ctx(ctx)
     ctx.loop_specs = dict(getattr(contract, "loops", {}) or {})
+    ctx.while_specs = dict(getattr(contract, "while_loops", {}) or {})
     hook = getattr(contract, "configure", None)
     if hook:
         hook(ctx)
